@@ -74,6 +74,12 @@ CHECKS["C11"] = (
     "Trusts the recogniser for names; packages/names are compared as written in the stubs.",
     "6/C11",
 )
+CHECKS["C09"] = (
+    "bounded-exhaustive enumeration of identifiers through the real conversion function, and of (input, flag off) / (input, flag on) run pairs through the real pipeline with a relational oracle",
+    "Function level: every legal identifier up to length 6 (quick, 1.6e4) / 7 (thorough, 8e4) over {a,b,A,1,_} as class and non-class name: identity under PYTHON, result is an identifier, no inner underscore, first-letter case, idempotence; dotted paths per segment. End to end: 38 identifier shapes x 18 declaration/reference positions, pairs of names converting to one spelling, and C03 trees (1/6 quick, all thorough), each generated with the flag off and on: no annotations when off, @PythonName/@PythonModule only when the name differs, same Python modules, and equal stubs after replacing every identifier by its recovered Python name (types, defaults, results, TODOs, members).",
+    "Synthesised names (result_N, param_N) and documentation text are ignored; type references are mapped through the same run's declarations; import lines compared by count only.",
+    "6/C09",
+)
 NOT_YET = {}  # id -> reason (filled for properties without a check)
 
 props = [json.loads(l) for l in open(V / "properties.jsonl")]
